@@ -498,7 +498,7 @@ def replay(case):
 
 MANIFEST = {
     "category": "exploration",
-    "text": "Bounded exhaustive exploration: every ordered pair of legal signatures (visited; in the quick tier also loaded by runtime inspection, whose comparison must say the same) over 2 (quick) / 3 (thorough) names with up to 2 / 3 parameters, all five kinds, defaults none/0/1, is diffed with the real find_breaking_changes and judged against every call shape by really calling compiled defs in CPython. Complete inside the bound, silent outside it. Further families: functions under decorators that leave the signature alone (some named like typing.overload without being it) must be compared like the undecorated ones; default expressions that differ only in grouping are different defaults.",
+    "text": "Bounded exhaustive exploration: every ordered pair of legal signatures (visited; in the quick tier also loaded by runtime inspection, whose comparison must say the same) over 2 (quick) / 3 (thorough) names with up to 2 / 3 parameters, all five kinds, defaults none/0/1, is diffed with the real find_breaking_changes and judged against every call shape by really calling compiled defs in CPython. Complete inside the bound, silent outside it. Further families: functions under decorators that leave the signature alone (some named like typing.overload without being it) must be compared like the undecorated ones; default expressions that differ only in grouping are different defaults. The quick tier also holds the three-parameter signatures without defaults / with one common default; identifiers that look special (leading double underscore) are judged over all two-parameter pairs, with the kinds compared to inspect.signature; signatures reached through inheritance (chains of two and three classes, nearest / shadowed / far-end definition changed) must be reported for the public class.",
     "note": "Trusts CPython 3.12 as the binder and the alpha-renaming argument for identifiers outside the alphabet; says nothing about signatures with more parameters than the bound.",
     "technique": "model checking by exhaustive small-scope enumeration of signature pairs x call shapes on the real code, CPython as oracle",
 }
